@@ -643,9 +643,9 @@ LINES = ["0 = N 0 0", "0 = N 1 10", "0 = N 7 5", "0 = N 5 0", "0 = N 6 0", "96 =
 # ---- lines written from the statements of C07-C10 (grammar-based; the fixed corpus above stays in the mix)
 PAD = ["", "", "  ", " ", "\t", "   "]
 TICKS = ["0", "0", "5", "7", "96", "192", "00192", "768", "1536", "99999999"]     # at most 8 digits (the statement's practical bounds; beyond them timedelta overflows)
-WORDS = ["solo", "soloend", "2", "007", "x2", "\u00c4\u00d6", "a_b", "two words", "", "\u00b2", "ENABLE_CHART_DYNAMICS", "E", "N"]
+WORDS = ["solo", "soloend", "2", "007", "x2", "\u00c4\u00d6", "a_b", "two words", "", "\u00b2", "ENABLE_CHART_DYNAMICS", "E", "N", "{}", "{solo}", "%s", "{0}"]
 TEXTS = ["la", "Hel-", "Intro", "Verse 1", "Oh", "Wow", "  padded  ", 'say "hi"', '"', "na\u00efve \u00e9t\u00e9", "123", "", " ", "lyric x", "section y",
-         "phrase_start", "phrase_end", "idle", "a = b", "Offset = 5"]
+         "phrase_start", "phrase_end", "idle", "a = b", "Offset = 5", "crowd_{}", "Verse {1}", "{oh}", "100%", "%(x)s", "{", "}"]
 FIELDS = ["Name", "Artist", "Charter", "Album", "Year", "Offset", "Resolution", "Player2", "Difficulty", "PreviewStart", "PreviewEnd", "Genre",
           "MediaType", "MusicStream", "GuitarStream", "RhythmStream", "BassStream", "DrumStream", "Drum2Stream", "Drum3Stream", "Drum4Stream",
           "VocalStream", "KeysStream", "CrowdStream"]
@@ -732,7 +732,14 @@ def gen(shape, rnd, depth=0):
     if isinstance(shape, StrS):
         return rnd.choice(LINES)
     if isinstance(shape, TdS):
-        return datetime.timedelta(microseconds=rnd.choice([0, 0, 1, 500000, 1000000, 1500000, 2000000, 3000001]))
+        k = rnd.random()
+        if k < 0.5:
+            us = rnd.choice([0, 0, 1, 500000, 1000000, 1500000, 2000000, 3000001])
+        elif k < 0.85:
+            us = rnd.randrange(0, 31) * 100000        # tenths of a second: sums of their float values are not exact (C16f)
+        else:
+            us = rnd.randrange(0, 3000000)
+        return datetime.timedelta(microseconds=us)
     if isinstance(shape, NoneS):
         return None
     if isinstance(shape, OptS):
